@@ -630,7 +630,8 @@ def source_budget(ctx, o):
             elif h:
                 o.witness('counted-on-handover')
     # clamp
-    fn2 = P.method(c, 'adjust_part_count')[1]
+    from ..norm import splice_self_statement_calls
+    fn2 = splice_self_statement_calls(P, c, P.method(c, 'adjust_part_count')[1])
     o.count()
     stores = [s for s in ast.walk(fn2) if isinstance(s, ast.Assign) and any(is_self_attr(t, '_max_produced_parts') for t in s.targets)]
     val = [a.arg for a in fn2.args.args][1]
